@@ -439,6 +439,49 @@ def formatRun (st : Style) (cols lines : Nat) (s : List Char) : List Ev × Excep
 def formatCall (st : Style) (cols lines : Nat) (s : List Char) : Except Err Result :=
   (formatRun st cols lines s).2
 
+/-! ## `__format__` as an entry point on an image instance: the instance state is explicit
+
+The only instance state `__format__` can touch is the size setting: `_renderer` resolves a dynamic size
+(`Size.FIT/AUTO/ORIGINAL/FIT_TO_WIDTH`) with `set_size(_size)` for the duration of the render and puts the
+`Size` member back in its `finally` (`self.size = _size`).  `_check_format_spec` is a classmethod that
+runs *before* `_renderer` and reads nothing but the terminal size.  How a dynamic size resolves
+(`_valid_size`, C04) is a parameter `resolve`.  The frame position is carried to show it is not touched. -/
+
+inductive SizeSetting where
+  | dyn (k : Nat)            -- a `Size` member (0 FIT, 1 AUTO, 2 ORIGINAL, 3 FIT_TO_WIDTH)
+  | fixed (c l : Nat)        -- a fixed (columns, lines) size
+deriving DecidableEq, Repr
+
+structure ImgState where
+  size : SizeSetting
+  frame : Nat
+deriving DecidableEq, Repr
+
+inductive EvE where
+  | termSize                 -- `get_terminal_size()` in `_check_formatting`
+  | enter                    -- `_renderer` entered
+  | setSize (c l : Nat)      -- `self.set_size(_size)`
+  | render (c l : Nat)       -- `_render_image` with this image size
+  | restore (k : Nat)        -- `finally: self.size = _size`
+deriving DecidableEq, Repr
+
+/-- `_renderer(self._render_image, alpha, **style_args)` on an instance -/
+def rendererRun (resolve : Nat → Nat × Nat) (img : ImgState) : ImgState × List EvE :=
+  match img.size with
+  | .dyn k =>
+    let img1 : ImgState := { img with size := .fixed (resolve k).1 (resolve k).2 }   -- set_size(_size)
+    let img2 : ImgState := { img1 with size := .dyn k }                                -- finally: self.size = _size
+    (img2, [.enter, .setSize (resolve k).1 (resolve k).2, .render (resolve k).1 (resolve k).2, .restore k])
+  | .fixed c l => (img, [.enter, .render c l])
+
+/-- `image.__format__(spec)` (reached by `format()`, f-strings, `str.format`):
+    (instance state afterwards, events, outcome) -/
+def formatEntry (st : Style) (cols lines : Nat) (resolve : Nat → Nat × Nat) (img : ImgState)
+    (s : List Char) : ImgState × List EvE × Except Err Result :=
+  match formatRun st cols lines s with
+  | (evs, .error e) => (img, evs.map (fun _ => EvE.termSize), .error e)   -- raised out of `_check_format_spec`
+  | (_, .ok r) => ((rendererRun resolve img).1, EvE.termSize :: (rendererRun resolve img).2, .ok r)
+
 /-- explicit parameters of `draw()` -/
 structure DrawArgs where
   hAlign : Option (List Char)
